@@ -9,7 +9,12 @@ def main() -> int:
     desc = json.load(sys.stdin)
     mod = importlib.import_module(f"props.{pid}")
     try:
-        res = mod.native(desc)
+        if desc.get("kind") == "e2e":
+            from harness import e2e
+            what = [w for p, w in e2e.run_scenario(desc["scenario"], [pid]) if p == pid]
+            res = {"reproduced": bool(what), "observed": what[:6], "required": "the property's statement, checked by harness/e2e.py oracles on this history"}
+        else:
+            res = mod.native(desc)
     except Exception as exc:      # the harness failing is not a reproduction
         import traceback
         res = {"reproduced": False, "error": f"{type(exc).__name__}: {exc}", "trace": traceback.format_exc()[-1200:]}
